@@ -121,6 +121,13 @@ pub struct Plan {
     /// arguments of the library's `log::debug!` calls are evaluated at all.
     #[serde(default, skip_serializing_if = "Option::is_none")]
     pub log_level: Option<u8>,
+    /// Fault `address_space`: run the execution in a freshly exec'd process (a new image
+    /// base, stack, heap and mmap layout chosen by the kernel) instead of a fork of the
+    /// worker, whose layout the reference context shares. Models "another process" for code
+    /// that draws its entropy from addresses (a hasher seeded from ASLR, pointer-keyed
+    /// ordering, the address of a static as a cheap random number).
+    #[serde(default, skip_serializing_if = "std::ops::Not::not")]
+    pub fresh_exec: bool,
 }
 
 fn is_zero64(x: &u64) -> bool {
